@@ -1176,3 +1176,107 @@ def r_benign(ctx, rep):
                     rep.holds("R-BENIGN", key, loc(hit), "Event::%s is consumed or ignored" % V)
     if n < 25:
         rep.violation("R-BENIGN", "R-BENIGN|floor", "-", "only %d pull loops found (25 confirmed by hand)" % n)
+
+
+# ----------------------------------------------------------------------------------------------
+# R-CFBRES: reserved sector ids never name a sector
+
+MAXREGSECT = 0xFFFFFFFA
+
+
+def _guard_const(e, lid):
+    """smallest constant C such that the boolean expression `e` implies <local lid> < C, or None"""
+    e = unwrap(e)
+    if not isinstance(e, dict):
+        return None
+    if e.get("k") == "Binary":
+        if e["op"] == "&&":
+            cs = [c for c in (_guard_const(e["l"], lid), _guard_const(e["r"], lid)) if c is not None]
+            return min(cs) if cs else None
+        l, r = peel(e["l"]), peel(e["r"])
+        pl, pr = path_local(l), path_local(r)
+        vl, vr = lit_value(l), lit_value(r)
+        if pl and pl[1] == lid and isinstance(vr, int):
+            return {"<": vr, "<=": vr + 1}.get(e["op"])
+        if pr and pr[1] == lid and isinstance(vl, int):
+            return {">": vl, ">=": vl + 1}.get(e["op"])
+    return None
+
+
+def r_cfbres(ctx, rep):
+    """C06 / C13: [MS-CFB] 2.1: sector numbers >= MAXREGSECT (0xFFFFFFFA) are reserved markers (DIFSECT, FATSECT,
+    ENDOFCHAIN, FREESECT); they never designate a sector.  Sectors::get computes `id * sector_size` and resizes its
+    buffer to that offset, so a reserved value that reaches it asks for terabytes.  Every call of Sectors::get must be
+    dominated by a test that implies id < MAXREGSECT (a loop / if condition on the id, or the filter of the iterator
+    that produces it)."""
+    F = ctx.facts("default")
+    n = 0
+    for fn in F.fns_in("src/cfb.rs"):
+        k = 0
+        for c, anc in walk_anc(fn.body):
+            if c.get("k") != "MethodCall" or (callee(c) or "") != "cfb::Sectors::get" or not c.get("args"):
+                continue
+            k += 1
+            n += 1
+            key = "%s|R-CFBRES|get#%d" % (fn.name, k)
+            pl = path_local(peel(c["args"][0]))
+            if not pl:
+                rep.violation("R-CFBRES", key, loc(c), "the sector id passed to Sectors::get is not a plain local; cannot establish its guard")
+                continue
+            lid = pl[1]
+            best = None
+            for a in anc:
+                cond = None
+                if a.get("k") == "If" and any(x is c for x in walk(a.get("then"))):
+                    cond = a["cond"]
+                if cond is not None:
+                    g = _guard_const(cond, lid)
+                    if g is not None:
+                        best = g if best is None else min(best, g)
+                if a.get("k") == "Match" and a.get("src") in ("ForLoopDesugar", "for"):
+                    pass
+            # `for id in <iter>.filter(|id| *id < C)`: the filter closure's parameter stands for the loop variable
+            for a in anc:
+                for f in walk_k(a, "MethodCall") if a.get("k") in ("Match", "Loop", "Call") else []:
+                    if f.get("name") == "filter" and f.get("args") and any(x is c for x in walk(a)) and not any(x is c for x in walk(f)):
+                        clo = unwrap(f["args"][0])
+                        params = [p_ for p_ in walk_k(clo, "Binding")]
+                        if params:
+                            g = _guard_const(clo.get("body") or clo.get("e") or clo, params[0]["lid"])
+                            if g is not None:
+                                best = g if best is None else min(best, g)
+            if best is not None and best <= MAXREGSECT:
+                rep.holds("R-CFBRES", key, loc(c), "dominated by a test implying id < %#x" % best)
+            else:
+                rep.violation("R-CFBRES", key, loc(c), "%s: Sectors::get(%s) is reached with reserved sector numbers (%s): [MS-CFB] reserves ids >= 0xFFFFFFFA as markers; get() would compute a multi-terabyte offset from them and resize its buffer to it" % (
+                    fn.name, pl[0], ("the only bound is id < %#x" % best) if best is not None else "no upper bound on the id dominates the call"))
+    rep.floor("R-CFBRES", 3, "DIFAT walk, FAT loading, get_chain")
+
+
+def r_cfbver(ctx, rep):
+    """C13 (512- or 4096-byte sectors, with or without a mini stream): the format version of a compound file
+    implies nothing beyond the sector size, which is read from its own header field.  No decision of Cfb::new may
+    depend on the version: a condition that reads it accepts a layout in one version and rejects the same layout in
+    the other (the pinned tree rejected version-4 files whose root entry has no mini stream)."""
+    F = ctx.facts("default")
+    fn = F.fn("cfb::Cfb::new")
+    key = "cfb::Cfb::new|R-CFBVER"
+    if fn is None:
+        rep.anchor_missing("R-CFBVER", "cfb::Cfb::new")
+        return
+    bad = []
+    for n in walk(fn.body):
+        cond = None
+        if n.get("k") == "If":
+            cond = n["cond"]
+        elif n.get("k") == "Match" and n.get("src") not in ("TryDesugar", "ForLoopDesugar"):
+            cond = n["scrut"]
+        if cond is None:
+            continue
+        for f in walk_k(cond, "Field"):
+            if f.get("name") in ("version", "_version") and "Header" in (peel(f["e"]).get("ty") or ""):
+                bad.append(n)
+    if bad:
+        rep.violation("R-CFBVER", key, loc(bad[0]), "Cfb::new branches on the header's format version: the same physical layout (e.g. a root entry without mini stream, start = ENDOFCHAIN) is accepted for one version and rejected for the other")
+    else:
+        rep.holds("R-CFBVER", key, loc(fn.raw), "no decision of Cfb::new reads the format version")
